@@ -22,7 +22,7 @@ NodeB = type("Node", (), {})
 Node0 = type("Node0", (), {})
 
 
-VALUES = [NodeA(), NodeB(), Node0(), A(), B(), C(), 1, True, "a", None, [A()], [1], (1, "a"), 2.5, 2, "b", A, list[A], {"k": A()}, {"k": 1}, {}]
+VALUES = [NodeA(), NodeB(), Node0(), A(), B(), C(), 1, True, "a", None, [A()], [1], (1, "a"), 2.5, 2, "b", A, list[A], {"k": A()}, {"k": 1}, {}, [2], {"k": 2}, (2, "a"), [3]]
 
 GLOBALS_A = {"Thing": A, "typing": typing, "Annotated": Annotated}
 GLOBALS_C = {"Thing": C, "typing": typing}
@@ -77,6 +77,10 @@ GROUPS = {
     "optional_of_value_type": [Optional[Equals[1]], Equals[1] | None, None | Equals[1], Optional[Literal[1]]],
     "union_with_value_type": [typing.Union[A, Equals["a"]], A | Equals["a"], Equals["a"] | A, (A, Equals["a"]), A | Literal["a"]],
     "nested_union_with_literal": [typing.Union[A, typing.Union[float, Literal["a"]]], (A, (float, Literal["a"])), A | float | Literal["a"], (A, float, Literal["a"])],
+    # value types as element types of containers (checked through the element's isinstance, not the generated value check)
+    "literal_inside_list": [list[Literal[1, 2]], list[Literal[2, 1]], typing.List[Literal[1, 2]]],
+    "literal_inside_dict": [dict[str, Literal[1, 2]], dict[str, Literal[2, 1]]],
+    "literal_inside_tuple": [tuple[Literal[1, 2], str], tuple[Literal[2, 1], str]],
     "nested_tuple_plain": [typing.Union[A, int, str], (A, (int, str)), ((A, int), str)],
 }
 
